@@ -355,7 +355,7 @@ def selftest_mutants(names, runs_override=None):
         if os.path.exists(mp):
             with open(mp) as f:
                 meta = json.load(f)
-            prop = meta["property"]
+            prop = meta.get("check") or meta["property"]  # a few are caught by a neighbouring property's check
             index["../seeded/%s/patch.diff" % sid] = {"properties": [prop], "expect": {prop: meta["caught_by"]["signatures"]},
                                                      "runs": {prop: meta.get("runs")} if meta.get("runs") else {}}
     base = "/dev/shm" if os.path.isdir("/dev/shm") else tempfile.gettempdir()
